@@ -420,6 +420,9 @@ def check_c02(run):
 
 @check("C08", "model_checking")
 def check_c08(run):
+    # the automatic block size (and TBFMM_BLOCK_SIZE) must behave like an explicit one: counting-kernel cells of the configuration matrix
+    matrix_run(run, [dict(DIMV=d, REAL_T="double", ORDERV=0, AUTOBS=1, REBUILDV=0, EXECV=e) for d, e in ((1, 0), (2, 1), (3, 0), (3, 2))], 30 if run.tier == "quick" else 150,
+               ["AutoBlockSize", "ExactlyOnce", "StoredOnce"])
     bss = (1, 2, 3, 4, 5, 7, 11, 20) if run.tier == "quick" else (1, 2, 3, 4, 5, 6, 7, 8, 9, 11, 13, 20, 1000)
     cs = std_configs(run.tier, bss=bss, small=True)
     pairs = run_fmm_configs(run, "C08", cs)
@@ -435,7 +438,7 @@ def check_c08(run):
     run.coverage["groupings_per_occupancy"] = max((sum(len(v) for v in sigs.values()) for sigs in groups.values()), default=0)
     run.coverage["rule"] = FMM_RULE + "; for every occupancy all block sizes x both grouping modes must give the same multiset of elementary interactions (digest and count recorded from the kernel callbacks) and bit-identical bag state as the grouping-free definition in the specification"
     run.coverage["exhaustive"] = True
-    run.assumptions += FMM_ASSUME + ["the automatic block size and TBFMM_BLOCK_SIZE are exercised by C19's matrix"]
+    run.assumptions += FMM_ASSUME + ["the automatic block size and TBFMM_BLOCK_SIZE are exercised with a counting kernel (matrix cells), not with the bag kernel"]
 
 
 @check("C12", "model_checking")
